@@ -388,5 +388,8 @@ def check(run, fx, tier, floors=True):
     indexing.rule_index(run, fx, "C02-i", floors, select=in_scope, floor_n=150)
     overflow.rule_overflow(run, fx, "C02-o", floors, select=in_scope, floor_n=60)
     c02_t(run, fx)
+    if floors or fx.const("gsub::FEATURE_MASKS") is not None:
+        import rules_C04
+        rules_C04.t04_fmask(run, fx)
     if floors or fx.adt("gpos::Placement") is not None:
         c02_f(run, fx, floors)
